@@ -28,9 +28,12 @@ def firstBad (e e' : Expr) : List Row → Option String
       match eval e' r with
       | .ok v' => if showVal v == showVal v' then firstBad e e' rs else some s!"bad:{showRow r} {showVal v} {showVal v'}"
       | .error .type => some "unsupported"
-      | .error _ => some s!"bad:{showRow r} {showVal v} err"
+      -- the reference's AND/OR are strict in errors, the engine's are not (it may short-circuit):
+      -- whether the rewritten expression really fails on this row is judged by the harness's
+      -- physical-evaluation oracle, not here
+      | .error _ => some "unsupported"
 
-def handle (op : String) (arg : Sexp) : String :=
+partial def handle (op : String) (arg : Sexp) : String :=
   match op, arg with
   | "equiv", .list [e, e', .list rows] =>
     match parseExpr e, parseExpr e', rows.mapM parseRow with
@@ -41,6 +44,22 @@ def handle (op : String) (arg : Sexp) : String :=
     | none, _, _ => "unsupported"
     | _, none, _ => "unsupported"
     | _, _, _ => "bad-op"
+  | "equiv-trycast", a => handle "equiv" a
+  | "equiv-inlist", a => handle "equiv" a
+  | "sqlfilter-commuted-utf8view", a => handle "sqlfilter" a
+  | "sqlfilter", .list [e, .list rows, impl] =>
+    -- `SELECT id FROM t WHERE e`: ids (= row positions) of the rows on which `e` is TRUE
+    match parseExpr e, rows.mapM parseRow with
+    | some e, some rows =>
+      let ids := (rows.zipIdx.filterMap (fun (r, i) => match holds e r with
+        | .ok true => some (some i)
+        | .ok false => none
+        | .error _ => some none))
+      if ids.any Option.isNone then "unsupported"
+      else
+        let want := "(ok (" ++ " ".intercalate (ids.filterMap id |>.map toString) ++ "))"
+        if want == impl.toStr then "ok" else "bad:" ++ want
+    | _, _ => "unsupported"
   | "negate", .atom o =>
     match parseBinOp o with
     | some o => match negateOp o with
